@@ -45,7 +45,10 @@ MANIFEST = {
              "independent text-level oracle on random stationary / drift / balanced-growth models, flat and growth, linear and "
              "nonlinear, blocks on/off, steady plans, 1-3 variants, both solver options (neqs_levenberg, scipy_root; the 2-norm acceptance "
              "test of scipy_root is modelled and proved to imply the sup-norm exit test), and a hard-start family (local extrema, unsolvable "
-             "systems, overdetermining plans) on which solve_steady has to raise or store a true steady state."),
+             "systems, overdetermining plans) on which solve_steady has to raise or store a true steady state; multi-step sessions on one model "
+             "(tolerance override/reset, solver_settings tolerances, re-assignments, per-call linear/flat overrides in both directions), each "
+             "solve judged against the options in force at that call; the flag resolution table and sequences of solver-settings calls are "
+             "compared with the stateless model (resolveFlags, tolInForce)."),
     "design": "7/C05",
     "note": ("partial: Newton/Levenberg convergence, the neqs exit test itself and the every-date claim for genuinely nonlinear "
              "models are runtime facts (validated per generated program by the oracle), floating point is not modelled"),
@@ -53,6 +56,7 @@ MANIFEST = {
 }
 ASSUMPTIONS = [
     "a stored log-variable level below 1e-6 (iteration collapsed to the boundary of the log domain, e.g. the trivial root k=0) is treated as degenerate: the oracle then demands the equations at dates 0 and 1 only (counted in input_distribution)",
+    "a solve made under a loose tolerance tau (> 1e-9, set on the model or through solver_settings) is judged at the two dates the exit test evaluates, within 10*tau; only solves under the default tolerance are judged at dates -5..5 within 1e-8*scale",
     "the nonlinear solvers (neqs Levenberg, scipy root/lm incl. its success flag) and numpy lstsq are unmodelled; their outputs are validated per run (exit test, exact residuals)",
     "log-variables are modelled multiplicatively (level*change^shift); agreement with exp(log level + shift*log change) is a theorem over the reals, floating-point exp/log is compared with tolerance",
     "the order of the unknowns inside the evaluator's guess vector (CPython set order) is not modelled: the model uses increasing qid and the harness permutes the implementation's final guess accordingly; the *sets* of level/change unknowns are compared exactly",
@@ -129,7 +133,16 @@ def eq_to_lean(lhs, rhs, qid) -> str | None:
 # ---------------------------------------------------------------------------------------
 
 _TOKEN = re.compile(r"([A-Za-z_]\w*)(?:\[([+-]?\d+)\])?")
-_FUNCS = {"log": math.log, "exp": math.exp, "sqrt": math.sqrt}
+def _log(x):
+    # numpy's convention at the boundary of the domain (a log-variable whose level underflowed to exactly 0.0)
+    return float("-inf") if x == 0 else math.log(x)
+
+
+def _exp(x):
+    return 0.0 if x == float("-inf") else math.exp(x)
+
+
+_FUNCS = {"log": _log, "exp": _exp, "sqrt": math.sqrt}
 
 
 def compile_text(text: str):
@@ -619,7 +632,7 @@ def kinds_of(case):
     return kinds
 
 
-def oracle(ctx: Ctx, case, m, before, tol=TOL_ORACLE, payload=None, note="") -> bool:
+def oracle(ctx: Ctx, case, m, before, tol=TOL_ORACLE, payload=None, note="", dates=None) -> bool:
     """every steady equation text holds at dates -5..5 on the stored path, for every variant; plan-fixed values are kept.
     `tol`: relative threshold, derived by the caller from the tolerance in force at the solve that is being judged;
     `payload`: what a replay needs when the case is one step of a multi-step session"""
@@ -645,7 +658,7 @@ def oracle(ctx: Ctx, case, m, before, tol=TOL_ORACLE, payload=None, note="") -> 
             ctx.count("degenerate_collapsed_log_level(dates 0,1 only)")
             collapsed_vids.add(vid)
         for text, code in zip(texts, codes):
-            for t in ([0, 1] if collapsed else DATES):
+            for t in ([0, 1] if collapsed else (dates or DATES)):
                 r, scale = oracle_residual(code, kinds, levels, changes, t)
                 ctx.evaluations += 1
                 if not (abs(r) <= tol * scale):
@@ -1295,11 +1308,16 @@ def run_session(ctx: Ctx, sess) -> None:
             ctx.count("session_solve:" + ("linear" if lin else "nonlinear:" + st["solver"]) + (":flat" if s_flat else ":growth")
                       + (":override" if ("flat" in kwargs and s_flat != sess["create_flat"]) else "")
                       + (":loose" if tol_in_force > 1e-9 else ""))
-            # the judge: a linear solve is exact; an iterative one was stopped by the tolerance in force at this call
-            tol = TOL_ORACLE if lin else max(TOL_ORACLE, 200.0 * tol_in_force)
+            # the judge: a linear solve is exact; an iterative one was stopped by the tolerance in force at this call.
+            # Under the default (tight) tolerance the equations are demanded at dates -5..5; under a loose tolerance only
+            # what that tolerance can promise: the two dates the exit test looks at, within 10x the tolerance (away from
+            # those dates an error of size tol in a growth rate is amplified without bound, e.g. in a ratio k/y)
+            loose = (not lin) and tol_in_force > 1e-9
+            tol = max(TOL_ORACLE, 10.0 * tol_in_force) if loose else TOL_ORACLE
+            dates = [0, 1] if loose else None
             judged = dict(case, plan=case["plan"] if use_plan else None,
                           params={k: v for k, v in current.items()})
-            oracle(ctx, judged, m, before, tol=tol, payload=session_for_json(sess, i),
+            oracle(ctx, judged, m, before, tol=tol, dates=dates, payload=session_for_json(sess, i),
                    note=f"step {i} ({'linear' if lin else st['solver']}, kwargs {sorted(k for k in kwargs if k != 'plan')}, tolerance in force {tol_in_force:g}): ")
             ctx.nontriv(("session", sess["create_linear"], sess["create_flat"], case["linear"], s_flat, lin, st["solver"] if not lin else "",
                          tol_in_force, equality, i))
